@@ -10,8 +10,8 @@ package harness
 
 import (
 	"context"
-	"io"
 	"fmt"
+	"io"
 	"math/rand/v2"
 	"sort"
 	"strings"
@@ -34,15 +34,15 @@ type decision struct {
 }
 
 type parked struct {
-	key     string
-	kind    string
-	ent     string
-	inc     int
-	ch      chan decision
-	enabled func() bool
-	faults  []string
-	since   time.Time
-	stalled bool
+	key          string
+	kind         string
+	ent          string
+	inc          int
+	ch           chan decision
+	enabled      func() bool
+	faults       []string
+	since        time.Time
+	stalled      bool
 	stalledUntil time.Time
 	// liveness accounting: true when the call is one the "responsive world"
 	// promise covers (everything except client waits).
